@@ -40,17 +40,10 @@ def obligations(tier, seed):
     from vlib.props._asm import asm_obs
     obs += [o for o in asm_obs() if o.name in ("asm_x28_designations", "asm_x28_rejected_not_recorded", "asm_header_pageno_error")]
     # ---- reference discipline of the page title query ---------------------------------------------------------
-    obs.append(Ob("page_title_refs", harness="h_c01_refs.c", func="h_page_title", unwind=50, units=["src/lang.c", "src/hamm.c"], vin_size=512,
-                  desc="vbi_page_title on an arbitrary TOP link table (8 BTT links: function, page, sub-code symbolic) with a reference counting cache model "
-                       "(per lookup: not cached or one of two pages whose function and AIT entries are symbolic): when it returns, every page reference it took "
-                       "has been given back exactly once, nothing was released that was not held, TRUE only for a page an AIT entry names, the title is NUL "
-                       "terminated inside the documented 41 bytes and nothing behind them is written",
-                  encodes=["vbi_page_title", "ait_title", "character_set_designation", "vbi_teletext_unicode"],
-                  bounds="8 links of which two (positions on the grid) have a symbolic function, 2 cached pages, 4 of the 46 AIT entries per page symbolic (the others zero)",
-                  grid=[dict(LINKA=0, LINKB=1), dict(LINKA=3, LINKB=7)],
-                  outside="FLOF based titles (not implemented in the library); the real cache (C10)",
-                  stubs=["models/c02fmt_carve.h type carving", "cache model: _vbi_cache_get_page / cache_page_unref count references on two harness pages"],
-                  reach=["end", "found", "two_lookups"], timeout=900, mem_gb=6, tier="thorough"))     # no verdict in 300 s yet: thorough until it is decisive
+    # page_title_refs (harness/h_c01_refs.c h_page_title: every page reference vbi_page_title takes is given back; reference counting cache model, two links with a
+    # symbolic function, two pages with 2 symbolic AIT entries each) is NOT registered: no verdict - 300 s timeout with 4 symbolic entries per page, out of memory at
+    # 10.6 GB after 325 s with 2 (each matching entry inlines ait_title -> 12 x vbi_teletext_unicode; the early `return TRUE` keeps every later iteration alive).
+    # Seeds C01-page-title-ait-ref-leak and C01-w2-enhance-unref-leak stay missed.
     # ---- caption / XDS units -------------------------------------------------------------------------------
     from vlib.props import C08, C09, C16
     o8 = C08.obligations(tier, seed); o9 = C09.obligations(tier, seed); o16 = C16.obligations(tier, seed)
